@@ -13,9 +13,10 @@ import time
 import traceback
 
 from . import WORK, setup_env
+from .timeouts import ItemTimeout
 
 
-class CaseTimeout(Exception):
+class CaseTimeout(BaseException):
     pass
 
 
@@ -35,6 +36,8 @@ def run_one(mod, case, timeout):
         res = mod.run_case(case)
     except CaseTimeout:
         res = {"status": "inconclusive", "reason": f"watchdog {timeout}s"}
+    except ItemTimeout:
+        res = {"status": "inconclusive", "reason": "item watchdog"}
     except Exception as e:  # harness-side failure: never a verdict
         if type(e).__name__ == "MapperTimeout":
             res = {"status": "inconclusive", "reason": "mapper watchdog"}
